@@ -51,6 +51,13 @@ def find_consistency_check(ctx):
         raises = any(isinstance(n, ast.Raise) for n in own_nodes(f.node))
         if has_size and raises:
             cands.append(f)
+    if len(cands) > 1:
+        # several functions compare file sizes: the open-time check is the one the constructor calls
+        init = c.methods.get('__init__')
+        called = [cal for _, cal in ctx.E.callees(init)] if init is not None else []
+        pref = [f for f in cands if f in called]
+        if len(pref) == 1:
+            cands = pref
     if len(cands) != 1:
         raise AnalysisError(f'open-time size check not identifiable by role: {[f.qualname for f in cands]}')
     return cands[0]
@@ -247,7 +254,19 @@ def languages_over_registry(ctx, rl, regname='readcodefunc'):
     filt = any(isinstance(n, ast.Compare) and len(n.ops) == 1 and isinstance(n.ops[0], (ast.Is, ast.IsNot)) and
                isinstance(n.comparators[0], ast.Constant) and n.comparators[0].value is None
                for n in own_nodes(rl.node))
-    return over and filt
+    if not (over and filt):
+        return False
+    # ... on every call: no path returns without going through that loop / comprehension (no memoised answer: what is
+    # offered depends on type *and* dimensionality of this very array)
+    g = cfg_of(rl)
+    nodes = set()
+    for n in own_nodes(rl.node):
+        if (isinstance(n, ast.For) and norm(n.iter) in REG) or (isinstance(n, ast.comprehension) and norm(n.iter) in REG):
+            try:
+                nodes.add(g.node_for(n if isinstance(n, ast.For) else n.iter))
+            except KeyError:
+                pass
+    return bool(nodes) and not g.can_reach(g.entry, g.exit, avoid=nodes, skip_labels=('exc',))
 
 
 def rejects_unknown_language(ctx, rc, reg, disp, regname='readcodefunc'):
@@ -273,12 +292,15 @@ def attr_from_param(cls, param):
     if init is None:
         return None
     best = None
-    for a, v in cls.init_attr_exprs.items():
-        if param in derived(init.node, v):
-            # prefer the attribute that stores the parameter itself over values computed from several things
-            if isinstance(v, ast.Name) and v.id == param:
-                return a
-            best = best or a
+    for a, lst in cls.attr_exprs.items():
+        for f_, v, st in lst:
+            if f_ is not init:
+                continue
+            if param in derived(init.node, v):
+                # prefer the attribute that stores the parameter itself over values computed from several things
+                if isinstance(v, ast.Name) and v.id == param:
+                    return a
+                best = best or a
     return best
 
 
